@@ -2,7 +2,7 @@
    Statements only; proofs in Proofs/YamlProofs.v, Proofs/RulesProofs.v, Proofs/GraphEquivProofs.v. *)
 From Coq Require Import Permutation.
 From ACV Require Import Base.Strs Model.Graph Model.PathGrammar Model.Dnf Model.Rules Model.Report Model.Engine Model.Yaml Model.SharedRef Model.TemplatesRef.
-From ACV Require Import Model.ProfileParser Proofs.RulesProofs Proofs.YamlProofs Proofs.ParserProofs Extracted.SharedFacts Extracted.Templates.
+From ACV Require Import Model.ProfileParser Proofs.RulesProofs Proofs.YamlProofs Proofs.ParserProofs Proofs.ParserCongruence Extracted.SharedFacts Extracted.Templates.
 Local Open Scope list_scope.
 
 (* ties: mapping keys are looked up among the KEYS only and listed in document order; the prefix table is the
@@ -41,6 +41,30 @@ Theorem C15_parser_property_order : forall ctx fuel rest entries entries' f,
   exists f', parse_expr ctx (S fuel) (YMap (("propertyConstraints", YMap entries') :: rest)) = POk f' /\ rewrite f f'.
 Proof. exact property_constraints_order. Qed.
 (* reordering the names of a level list and the entries of `validations`: the same results per level *)
+(* The whole rewriting at once, on the YAML tree: the entries of EVERY mapping at EVERY depth permuted (document,
+   prefixes, validations, a validation, propertyConstraints, the constraints of one property, atLeast / atMost /
+   nested bodies) together with the items of the free lists (and / or operands, the three level lists): the parser
+   returns formulas related by operand reordering (or fails on both trees) ... *)
+Theorem C15_parser_congruence : forall ctx ctx', (forall iri, expand_compact ctx iri = expand_compact ctx' iri) ->
+  forall fuel y y', yrw y y' -> rel_res (parse_expr ctx fuel y) (parse_expr ctx' fuel y').
+Proof. exact parse_expr_congruence. Qed.
+(* ... and the verdict computed from the rewritten tree has exactly the members of the verdict computed from the
+   original, on every graph (or neither tree is a profile the model accepts) *)
+Theorem C15_rewriting_at_any_depth : forall defaults doc doc' g, yrw doc doc' ->
+  match verdict defaults doc g, verdict defaults doc' g with
+  | POk v, POk v' => forall x, In x v <-> In x v'
+  | POk _, _ | _, POk _ => False
+  | _, _ => True
+  end.
+Proof. exact verdict_congruence. Qed.
+(* the relation holds between really different trees, and the verdicts there are not empty *)
+Example C15_rewriting_example : yrw ex_doc ex_doc' /\ ex_doc <> ex_doc'
+  /\ verdict [] ex_doc ex_graph = POk [(Violation, "a", "n1", "m"); (Violation, "b", "n1", "Validation error")]%string.
+Proof. split; [exact ex_docs_related|]. split; [discriminate|]. exact (proj1 ex_verdicts). Qed.
+(* every tree whose mappings have distinct keys is related to itself *)
+Theorem C15_rewriting_reflexive : forall y, wf_keys y = true -> yrw y y.
+Proof. exact yrw_refl. Qed.
+
 Theorem C15_level_lists : forall g p p' l r,
   p_name p = p_name p' -> NoDup (map v_name (p_defs p)) -> Permutation (p_defs p) (p_defs p') -> Permutation (p_listed p) (p_listed p') ->
   (In r (level_results g p l) <-> In r (level_results g p' l)).
@@ -73,5 +97,8 @@ Print Assumptions C15_level_lists.
 Print Assumptions C15_parser_key_order.
 Print Assumptions C15_parser_constraint_order.
 Print Assumptions C15_parser_property_order.
+Print Assumptions C15_parser_congruence.
+Print Assumptions C15_rewriting_at_any_depth.
+Print Assumptions C15_rewriting_reflexive.
 Print Assumptions C15_prefix_rename.
 Print Assumptions C15_prefix_alias.
